@@ -223,6 +223,11 @@ func (s *xState) step(m xMsg) []xExp {
 		if st == nil {
 			return fail(0)
 		}
+		if badFormats(m.PFmts) || badFormats(m.RFmts) {
+			// a format code other than 0/1 cannot be honoured: the Bind fails (and the rest of
+			// the batch is skipped); the portal is then not (re)defined
+			return fail(0)
+		}
 		n := s.clone()
 		n.portals[m.Portal] = &xPortal{St: st, BindID: m.BindID, Params: m.Params, PFmts: m.PFmts, RFmts: m.RFmts}
 		return []xExp{{reply: []expMsg{{T: '2'}}, next: n}}
@@ -325,6 +330,15 @@ func (s *xState) step(m xMsg) []xExp {
 		return openOutcomes(s)
 	}
 	return nil
+}
+
+func badFormats(f []int16) bool {
+	for _, x := range f {
+		if x != 0 && x != 1 {
+			return true
+		}
+	}
+	return false
 }
 
 func syncOutcomes(s *xState) []xExp {
